@@ -2,13 +2,15 @@
 # tools/mutant_matrix.sh : run every incoming mutant against its owning quick check (private worktrees), 3 at a time
 mkdir -p /tmp/confirm/matrix
 cd /verif
-for d in seeded/_incoming/*/; do
+INC=${1:-seeded/_incoming}; TAG=${2:-}
+for d in $INC/*/; do
   P=$(basename $d)
-  for k in 1 2 3; do
+  for k in 1 2 3 4; do
     patch=$d/change_$k.diff
     [ -f $d/change_${k}_ported.diff ] && patch=$d/change_${k}_ported.diff
     [ -f $patch ] || continue
-    echo "$P-$k $patch $P"
+    [ -f /tmp/confirm/matrix/$P-$TAG$k.$P.rc ] && [ "${FORCE:-0}" != 1 ] && continue
+    echo "$P-$TAG$k $patch $P"
   done
 done > /tmp/confirm/matrix_todo.txt
 cat /tmp/confirm/matrix_todo.txt | xargs -P 3 -L 1 bash -c 'out=$(tools/try_mutant_wt.sh $1 $2 2>&1); echo "$out" > /tmp/confirm/matrix/$0.$2.log; echo "$out" | tail -1 | sed "s/exit=//" > /tmp/confirm/matrix/$0.$2.rc'
